@@ -352,3 +352,91 @@ def c20_fresh(R):
                             f"thread's Z3 call are read by another",
                         )
     R.need(n >= 4, f"only {n} per-thread slot initialisations found")
+
+
+# ----------------------------------------------------------------------------- C20.weakget
+
+
+def _weak_tables(tree):
+    """(module, qualified name, bare name) of every module- or class-level WeakValueDictionary of the package"""
+    out = []
+    for m in tree.modules.values():
+        scopes = [("", m.tree.body)] + [(q + ".", c.body) for q, c in m.classes.items() if "." not in q]
+        for prefix, body in scopes:
+            for st in body:
+                tg, val = None, None
+                if isinstance(st, ast.Assign) and len(st.targets) == 1 and isinstance(st.targets[0], ast.Name):
+                    tg, val = st.targets[0].id, st.value
+                elif isinstance(st, ast.AnnAssign) and isinstance(st.target, ast.Name) and st.value is not None:
+                    tg, val = st.target.id, st.value
+                if tg and isinstance(val, ast.Call) and (dotted(val.func) or "").split(".")[-1] == "WeakValueDictionary":
+                    out.append((m, prefix + tg, tg))
+    return out
+
+
+@rule(
+    "C20.weakget",
+    props=("C20",),
+    floor=3,
+    family="TS",
+    desc="a process-wide weak-valued cache is read in one step: no `cache[k]` outside a handler for KeyError (or a "
+    "lock) - an entry lives only while some thread holds the cached value, so it can die between a membership test "
+    "and the read when another thread drops the last reference; `.get()` tests and pins the value at once",
+)
+def c20_weakget(R):
+    tree = R.tree
+    tables = _weak_tables(tree)
+    R.need(len(tables) >= 3, f"only {len(tables)} process-wide weak-valued caches found")
+    names = {bare for _m, _q, bare in tables}
+    reads = 0
+    for mm, q, fn in tree.all_functions():
+        # locals that stand for one of the tables (`cache = type(self)._hash_cache`)
+        alias = set()
+        for st in walk_no_nested(fn):
+            if isinstance(st, ast.Assign) and len(st.targets) == 1 and isinstance(st.targets[0], ast.Name):
+                d = dotted(st.value) or (ast.unparse(st.value) if isinstance(st.value, ast.Attribute) else "")
+                if d.split(".")[-1] in names:
+                    alias.add(st.targets[0].id)
+
+        def is_table(e):
+            if isinstance(e, ast.Name):
+                return e.id in names or e.id in alias
+            return isinstance(e, ast.Attribute) and e.attr in names
+
+        for x in walk_no_nested(fn):
+            if isinstance(x, ast.Call) and isinstance(x.func, ast.Attribute) and x.func.attr in ("get", "setdefault", "pop") and is_table(x.func.value):
+                reads += 1
+                R.ok(mm, x, f"{q}: one-step read of {norm(x.func.value)}")
+            if not (isinstance(x, ast.Subscript) and isinstance(x.ctx, ast.Load) and is_table(x.value)):
+                continue
+            reads += 1
+            protected = False
+            p, child = getattr(x, "_parent", None), x
+            while p is not None and p is not fn:
+                if isinstance(p, ast.Try) and child in p.body:
+                    for h in p.handlers:
+                        hn = {n_.id if isinstance(n_, ast.Name) else n_.attr for n_ in ast.walk(h.type) if isinstance(n_, (ast.Name, ast.Attribute))} if h.type is not None else {"BaseException"}
+                        if hn & {"KeyError", "LookupError", "Exception", "BaseException"}:
+                            protected = True
+                if isinstance(p, ast.With) and any("lock" in ast.unparse(i.context_expr).lower() for i in p.items):
+                    protected = True
+                if isinstance(p, ast.With):
+                    for i in p.items:
+                        ce = i.context_expr
+                        if isinstance(ce, ast.Call) and (dotted(ce.func) or "").split(".")[-1] == "suppress":
+                            sn = {n_.id if isinstance(n_, ast.Name) else n_.attr for a_ in ce.args for n_ in ast.walk(a_) if isinstance(n_, (ast.Name, ast.Attribute))}
+                            if sn & {"KeyError", "LookupError", "Exception", "BaseException"}:
+                                protected = True
+                child, p = p, getattr(p, "_parent", None)
+            R.check(
+                protected,
+                mm,
+                x,
+                f"{q}: `{norm(x)[:50]}` under a KeyError handler or a lock",
+                f"{q} reads `{norm(x)[:70]}` from a process-wide weak-valued cache outside a KeyError handler: the entry lives only "
+                f"while some thread holds the cached value, so after `k in cache` (or an earlier read) it can be gone when another "
+                f"thread drops its last reference, and this look-up raises KeyError out of simplify() / the VSA conversion "
+                f"(SolverVSA.max on an expression shared by four threads answered KeyError)",
+                construct=f"{q}: unprotected item read of a shared weak cache",
+            )
+    R.need(reads >= 3, f"only {reads} reads of the process-wide weak caches found")
